@@ -395,7 +395,7 @@ def batch_small_enough(N, reqs, obs):
     for rid in obs['ids']:
         if rid[0] not in grouped:
             continue
-        r, (nodes, loose) = next((r, c) for r, c in zip(reqs, obs['clean']) if int(r['id']) == rid[0])
+        r, (nodes, loose) = next((r, c) for r, c in zip(reqs, obs['spec_clean']) if int(r['id']) == rid[0])
         inc = [N.id[u] for u in nodes] if 'STRICT' in loose else []
         prod *= max(1, count_cands(N, N.id[r['src']], N.id[r['dst']], inc))
         if prod > SEARCH_LIMIT:
@@ -403,14 +403,29 @@ def batch_small_enough(N, reqs, obs):
     return True
 
 
+def spec_clean(N, r):
+    """the include list as the specification cleans it (own source first / own destination last stripped, unknown names
+    and transceivers dropped when LOOSE) -- used for the aggregation signature and the size of the search only; the oracle
+    itself uses Model.Route.clean_route evaluated in Coq"""
+    nodes, loose = list(r['nodes']), list(r['loose'])
+    if nodes and nodes[0] == r['src']:
+        nodes, loose = nodes[1:], loose[1:]
+    if nodes and nodes[-1] == r['dst']:
+        nodes, loose = nodes[:-1], loose[:-1]
+    keep = [(u, h) for u, h in zip(nodes, loose) if u in N.id and N.kind[N.id[u]] != 'T']
+    return [u for u, _ in keep], [h for _, h in keep]
+
+
 def coq_term(N, reqs, groups, obs):
     sigs = {}
     rqs = []
-    for r, (nodes, loose) in zip(reqs, obs['clean']):
+    obs['spec_clean'] = [spec_clean(N, r) for r in reqs]
+    for r, (nodes, loose) in zip(reqs, obs['spec_clean']):
         key = (r['src'], r['dst'], bool(r.get('bidir')), r['mode'], tuple(nodes), tuple(loose))
         sg = sigs.setdefault(key, len(sigs))
-        rqs.append(f'(mkD {r["id"]} {N.id[r["src"]]} {N.id[r["dst"]]} {zl([N.id[u] for u in nodes])} '
-                   f'{"true" if "STRICT" in loose else "false"} {sg} {"true" if r["mode"] is not None else "false"})')
+        rqs.append(f'(mkRaw {r["id"]} {N.id[r["src"]]} {N.id[r["dst"]]} '
+                   f'{listlit(map(common.zlit, c11.name_ids(N, r["nodes"])))} {c11.coq_bools(r["loose"])} {sg} '
+                   f'{"true" if r["mode"] is not None else "false"})')
     declared = [grp_lit(i, [[int(x)] for x in g['reqs']]) for i, g in enumerate(groups)]
     if obs['out'] == 'P':
         o = '(DPaths ' + listlit([f'({rid_lit(i)},{zl(p)})' for i, p in zip(obs['ids'], obs['paths'])]) + ')'
@@ -440,6 +455,11 @@ def judge(ctx, N, case, reqs, groups, obs, line):
         ctx.corr_break('corr:Disjoint.deduplicate', 'de-duplicated groups differ', case, impl=obs['dedup'], model=f['d'])
     if f['a'] != f['o']:
         ctx.corr_break('corr:Disjoint.aggregate', 'aggregated ids / groups differ', case, impl=f['o'], model=f['a'])
+    # route-list clean-up: what gnpy made of the lists against the model (the oracle below uses the model's lists)
+    mine = ';'.join('[' + ','.join(str(N.id[u]) for u in nodes) + ']' + ''.join('S' if h == 'STRICT' else 'L' for h in loose)
+                    for nodes, loose in obs['clean'])
+    if f.get('c', mine) != mine:
+        ctx.corr_break('corr:Route.clean_route', 'cleaned route lists differ', case, impl=mine, model=f.get('c'))
     cov_obs, nostale_obs, cov_model, nostale_model = f['f'].split(',')
     aggregated = len(obs['ids']) < len(reqs)
     ctx.count('aggregated_batches' if aggregated else 'plain_batches')
@@ -463,8 +483,8 @@ def judge(ctx, N, case, reqs, groups, obs, line):
             ctx.violation('overlap', 'two requests declared disjoint were given paths sharing a ROADM-to-ROADM link', case,
                           flags=flags, paths=obs['paths'])
         if 'F' in rflags:
-            ctx.violation('invalid_route_in_group', f'a grouped request got a path that is not a route meeting its STRICT '
-                          f'list (per request: {rflags})', case, flags=flags, paths=obs['paths'])
+            ctx.violation('invalid_route_in_group', f'a request of the batch got a path that is not a route crossing ITS '
+                          f'STRICT list in ITS order (per original request: {rflags})', case, flags=flags, paths=obs['paths'])
         if cov_obs != 'T' and okorig == 'T':
             ctx.count('declared_pair_dropped_but_paths_disjoint')
     elif v[0] == 'E':
@@ -472,7 +492,7 @@ def judge(ctx, N, case, reqs, groups, obs, line):
         if v[1] in 'TF':
             ctx.count('single_pair_errors')
             ga, gb = groups[0]['reqs']
-            pair = [next((r, c) for r, c in zip(reqs, obs['clean']) if r['id'] == i) for i in (ga, gb)]
+            pair = [next((r, c) for r, c in zip(reqs, obs['spec_clean']) if r['id'] == i) for i in (ga, gb)]
             sp = short_positions(N)
             flags['strict_nonshort'] = any('STRICT' in lo and any(N.id[u] not in sp for u in nodes)
                                            for _, (nodes, lo) in pair)
